@@ -901,8 +901,9 @@ def unit_bounded_readers(U):
 def unit_bounded_from_string(U):
     W = World(20 if not U.thorough else 40, variants=(0, 1))
     fails, cases, distinct = [], 0, set()
+    counts = [1, 2, 6] if not U.thorough else [1, 2, 6, 17, 32]
     try:
-        for n in ([1, 2, 6] if not U.thorough else [1, 2, 6, 17, 32]):
+        for n in counts:
             for scheme in ("onedir", "samebase", "memory"):
                 if n > 6 and scheme != "samebase":
                     continue
@@ -921,7 +922,8 @@ def unit_bounded_from_string(U):
         "C20.bounded.from_string_tempfile",
         "n concurrent create_db(text, from_string=True) processes sharing one temp dir: every database == the solitary run's and the shared "
         "temp dir lists exactly what it listed before (case['check'] tells which of the two failed)",
-        "process counts x output placements {onedir, samebase, memory}, alternating GFF3/GTF text of 2 gene models (%d genes)" % W.n_genes,
+        "process counts %s x output placements {onedir, samebase, memory} (samebase only above 6 processes), alternating GFF3/GTF text of "
+        "2 gene models (%d genes)" % (counts, W.n_genes),
         cases, fails, distinct=len(distinct))
 
 
